@@ -37,6 +37,22 @@ func deepAll() []int {
 	return out
 }
 
+// deepAny: deepAll plus the glyphs a +100 substitution makes of 901, 902 and
+// 999 (they are outside the substitutions' coverage, so nothing grows
+// further).  The "any glyph" contexts must accept them: otherwise the nested
+// contextual call fails to match where its inlined twin acts unconditionally,
+// and the two lists legitimately differ (false c07-inline-equivalence alarms
+// in the thorough tier).
+func deepAny() []int { return append(deepAll(), 1001, 1002, 1099) }
+
+func anyCov() []KV {
+	var out []KV
+	for _, g := range deepAny() {
+		out = append(out, KV{g, 0})
+	}
+	return out
+}
+
 func allCov() []KV {
 	var out []KV
 	for _, g := range deepAll() {
@@ -106,7 +122,7 @@ func ctxExact(kind string, gs []int, m int, acts []Act) *Sub {
 // glyphs of the alphabet.
 func ctxAny(kind string, m int, acts []Act) *Sub {
 	s := &Sub{Kind: kind}
-	all := deepAll()
+	all := deepAny()
 	anySets := func(n int) [][]int {
 		out := make([][]int, n)
 		for i := range out {
@@ -118,7 +134,7 @@ func ctxAny(kind string, m int, acts []Act) *Sub {
 	switch kind {
 	case "sc1", "cc1":
 		// glyph-based formats need one rule per possible second glyph
-		s.Cov = allCov()
+		s.Cov = anyCov()
 		var rules []Rule
 		if m == 1 {
 			rules = []Rule{{In: []int{}, Back: []int{}, Look: []int{}, Acts: acts}}
@@ -129,11 +145,11 @@ func ctxAny(kind string, m int, acts []Act) *Sub {
 		}
 		s.Rules = [][]Rule{rules}
 	case "sc2":
-		s.Cov = allCov()
+		s.Cov = anyCov()
 		s.Cls = []KV{}
 		s.Rules = [][]Rule{{{In: zeros, Acts: acts}}}
 	case "cc2":
-		s.Cov = allCov()
+		s.Cov = anyCov()
 		s.Cls, s.Cls2, s.Cls3 = []KV{}, []KV{}, []KV{}
 		s.Rules = [][]Rule{{{Back: []int{}, In: zeros, Look: []int{}, Acts: acts}}}
 	case "sc3":
